@@ -248,8 +248,16 @@ class Polyhedron(Shape3D):
         for i, face in enumerate(self.faces):
             new_faces[labels[i]].update(face)
 
+        old_faces = self._faces
         self._faces = [np.asarray(list(f)) for f in new_faces]
-        self.sort_faces()
+        try:
+            self.sort_faces()
+        except Exception:
+            # Leave the polyhedron as it was if the merged faces cannot be sorted.
+            self._faces = old_faces
+            self._find_equations()
+            self._find_neighbors()
+            raise
 
     @property
     def neighbors(self):
@@ -356,6 +364,8 @@ class Polyhedron(Shape3D):
             for i in range(len(self.faces)):
                 self._faces[i] = self._faces[i][::-1]
                 self._equations[i] *= -1
+        # The faces changed, so the cached edges are no longer valid.
+        self.__dict__.pop("edges", None)
 
     @property
     def vertices(self):
